@@ -283,3 +283,20 @@ Proof.
   destruct (cum_parse_spec recs [] es Hp) as [Hrecs Hes]. cbn [map app] in Hrecs. subst recs.
   apply (run_cumulus_ok flag acct _ _ Hf). apply import_cumulus_spec, Hes.
 Qed.
+
+(* ---------------------------------------------------------------- executable form vs. relation *)
+(* the transaction the executable specification prescribes for a row fact books that fact *)
+Lemma change_directive_books acct f text : acct <> tbd_account ->
+  exists t, change_directive acct f text = DTxn t /\ books acct tbd_account f t /\ t_desc t = build_desc text.
+Proof.
+  intros Hne. eexists. split; [reflexivity|]. split; [|reflexivity].
+  apply books_debit; try assumption; reflexivity.
+Qed.
+
+Lemma charge_directive_books acct f text : acct <> tbd_account ->
+  exists t, charge_directive acct f text = DTxn t /\ books acct tbd_account f t /\ t_desc t = build_desc text.
+Proof.
+  intros Hne. eexists. split; [reflexivity|]. split; [|reflexivity].
+  apply books_credit; try assumption; try reflexivity.
+  rewrite DecValue.dvalue_neg. ring.
+Qed.
